@@ -173,6 +173,24 @@ func (dm *DMap) loadOrCreateFragment(part *partitions.Partition) (*fragment, err
 	return f, nil
 }
 
+// lockFragment returns the fragment of the partition with its lock held, creating
+// the fragment if needed. The janitor (or Destroy) may wipe out the fragment
+// between the lookup and the lock; a wiped fragment is not part of the partition
+// anymore and what is written to it is lost, so look it up again.
+func (dm *DMap) lockFragment(part *partitions.Partition) (*fragment, error) {
+	for {
+		f, err := dm.loadOrCreateFragment(part)
+		if err != nil {
+			return nil, err
+		}
+		f.Lock()
+		if f.ctx.Err() == nil {
+			return f, nil
+		}
+		f.Unlock()
+	}
+}
+
 func (dm *DMap) loadFragment(part *partitions.Partition) (*fragment, error) {
 	f, ok := part.Map().Load(dm.fragmentName)
 	if !ok {
